@@ -38,9 +38,9 @@ func mask(w int) uint64 {
 	return (uint64(1) << uint(w)) - 1
 }
 
-func TBool(b bool) *Term      { return &Term{Sort: SBool, Const: true, B: b} }
+func TBool(b bool) *Term        { return &Term{Sort: SBool, Const: true, B: b} }
 func TBV(w int, u uint64) *Term { return &Term{Sort: SBV, W: w, Const: true, U: u & mask(w)} }
-func TStr(s string) *Term     { return &Term{Sort: SStr, Const: true, S: s} }
+func TStr(s string) *Term       { return &Term{Sort: SStr, Const: true, S: s} }
 func TVar(name string, s Sort, w int) *Term {
 	return &Term{Sort: s, W: w, Op: "var", Name: name}
 }
